@@ -361,8 +361,9 @@ class Responder():
         if u'date' not in self.headers:  # create Date header
             self.headers[u'date'] = httping.httpDate1123(datetime.datetime.now(datetime.UTC))
 
-        if self.chunkable and ('transfer-encoding' not in self.headers or
-                               self.headers['transfer-encoding'] == 'chunked'):
+        if (self.chunkable and self.length is None and
+                ('transfer-encoding' not in self.headers or
+                 self.headers['transfer-encoding'] == 'chunked')):
             self.chunked = True
             self.headers[u'transfer-encoding'] = u'chunked'
 
@@ -429,8 +430,7 @@ class Responder():
         self.headers = help.Hict(response_headers)
 
         if u'content-length' in self.headers:
-            self.length = int(self.headers['content-length'])
-            self.chunkable = False  # cannot use chunking with finite content-length
+            self.length = int(self.headers['content-length'])  # no chunking with finite content-length
         else:
             self.length = None
 
